@@ -20,6 +20,19 @@ func Run(o *drv.Out) {
 	CorpusRootBump(o)
 	CorpusStaleLock(o)
 	CorpusUnlock(o)
+	CorpusRelock(o)
+	// randomised members of the re-lock family (roles, leaders, gaps); many more when an obligation broke
+	nRelock := 6
+	if o.Tier == "thorough" {
+		nRelock = 40
+	}
+	if o.Search {
+		nRelock = 120
+	}
+	for k := 0; k < nRelock; k++ {
+		p := randomRelock(o.Rng)
+		RelockSchedule(o, fmt.Sprintf("relock/%d/byz%d-X%d-Y%d-Z%d/leaders%v/gaps%v", k, p.byz, p.X, p.Y, p.Z, p.lead, p.gaps), p)
+	}
 	nCases := 150
 	if o.Tier == "thorough" {
 		nCases = 1500
